@@ -544,6 +544,24 @@ func init() {
 		}
 		return c64(s, int64(n))
 	})
+	reg("internal/bytealg.IndexString", func(s *State, fn *ssa.Function, a []Value) Value {
+		x, y := a[0].(*StrV), a[1].(*StrV)
+		if x.isConc && y.isConc {
+			return c64(s, int64(strings.Index(x.conc, y.conc)))
+		}
+		// byte-wise search on symbolic strings (forks on each candidate position)
+		n, m := x.Len(), y.Len()
+		for i := 0; i+m <= n; i++ {
+			cs := make([]*Term, m)
+			for j := 0; j < m; j++ {
+				cs[j] = s.ctx.Eq(x.Byte(s.ctx, i+j), y.Byte(s.ctx, j))
+			}
+			if s.branch(s.ctx.And(cs...)) {
+				return c64(s, int64(i))
+			}
+		}
+		return c64(s, -1)
+	})
 	reg("internal/bytealg.MakeNoZero", func(s *State, fn *ssa.Function, a []Value) Value {
 		n := s.concretizeLen(a[0].(*Term), "MakeNoZero")
 		return s.makeSlice(types.Typ[types.Uint8], n, n)
